@@ -198,6 +198,12 @@ static int on_complete(parsec_taskpool_t *tp, void *data) {
     if (i >= 0 && i < 64 && cb_next[i]) { int j = cb_next[i] - 1; new_tp(j, 1); parsec_context_add_taskpool(g_ctx, tps[j]); }
     return 0;
 }
+static int nbare = 0;
+static int new_bare(void) {   /* slots 32..63 of tps[] hold bare taskpools */
+    int i = 32 + nbare++; if (i >= 64) { fprintf(stderr, "too many bare taskpools\n"); exit(3); }
+    tps[i] = PARSEC_OBJ_NEW(parsec_taskpool_t);
+    return i;
+}
 static int on_complete_compound(parsec_taskpool_t *tp, void *data) { (void)tp; vf_e1_mark(3, (int)(intptr_t)data, 0); return 0; }
 static const char *scenario_script(const char *sc, int ntp) {
     static char buf[4096]; buf[0] = 0; char t[64];
@@ -317,7 +323,7 @@ int main(int argc, char **argv) {
 
     vf_phase = 1;
     int ntp = vf_prog_count();
-    if (ntp > 64) ntp = 64;
+    if (ntp > 32) ntp = 32;
     memset(tps, 0, sizeof tps);
     g_ctx = ctx; g_D = &D;
     /* scenario script: ops separated by ';' (see lib/e1suite.py SCENARIOS)
@@ -330,8 +336,10 @@ int main(int argc, char **argv) {
     for (char *op = strtok(script, ";"); op; op = strtok(NULL, ";")) {
         if (!strncmp(op, "add:", 4)) { int i = atoi(op + 4); new_tp(i, 1); parsec_context_add_taskpool(ctx, tps[i]); }
         else if (!strncmp(op, "addc:", 5) || !strncmp(op, "addr:", 5)) {
-            int idx[64], n = 0; for (char *q = op + 5; *q && n < 64; ) { idx[n++] = (int)strtol(q, &q, 10); if (*q == ',') q++; }
-            for (int k = 0; k < n; k++) new_tp(idx[k], 0);
+            /* members: taskpool indices, or 'e' = a bare empty parsec_taskpool_t (no DSL, no task: it terminates inside
+             * parsec_context_add_taskpool, i.e. synchronously inside the compound's callback) */
+            int idx[64], n = 0; for (char *q = op + 5; *q && n < 64; ) { if (*q == 'e') { idx[n++] = new_bare(); q++; } else idx[n++] = (int)strtol(q, &q, 10); if (*q == ',') q++; }
+            for (int k = 0; k < n; k++) if (idx[k] < 32) new_tp(idx[k], 0);
             parsec_taskpool_t *c = NULL;
             if (op[3] == 'c') { c = tps[idx[0]]; for (int k = 1; k < n; k++) c = parsec_compose(c, tps[idx[k]]); }
             else { c = tps[idx[n - 1]]; for (int k = n - 2; k >= 0; k--) { c = parsec_compose(tps[idx[k]], c); if (k > 0 && ninner < 256) inner[ninner++] = c; /* nested compounds are ours to free */ } }
@@ -349,7 +357,8 @@ int main(int argc, char **argv) {
     }
     free(script);
     vf_phase = 3;
-    for (int i = 0; i < ntp; i++) if (tps[i]) vf_prog_free(i, tps[i]);
+    for (int i = 0; i < ntp && i < 32; i++) if (tps[i]) vf_prog_free(i, tps[i]);
+    for (int i = 32; i < 64; i++) if (tps[i]) parsec_taskpool_free(tps[i]);
     for (int i = 0; i < ncompounds; i++) parsec_taskpool_free(compounds[i]);
     for (int i = 0; i < ninner; i++) parsec_taskpool_free(inner[i]);
     dump();
